@@ -1,11 +1,72 @@
 (** Property C15 — compilation is deterministic; CLI and LSP emit the same code.
-    OBLIGATIONS: C15_nonvacuous *)
-From GV Require Import Compiler.Compile.
+    Determinism is by construction in the model: [cli_generate] and [lsp_compose] are functions of the input
+    bytes and of nothing else (the correspondence check is what shows the implementation to be that function:
+    repeated, permuted and concurrent compilations are compared with it).  The theorems below are the two
+    claims that are not by construction: the code is the same with and without a source map, for every tree
+    and therefore for every input, and the code of a top-level item does not depend on its siblings.
+    OBLIGATIONS: C15_sm_independent C15_generate_is_compose C15_cli_lsp_same_code C15_step_independent_of_position
+                 C15_file_is_concatenation C15_sibling_independent C15_nonvacuous *)
+From GV Require Import Compiler.Compile Proofs.EmitProofs.
+Open Scope N_scope.
+
+(** with and without a source map the emitter writes the same chunks and ends with the same error *)
+Theorem C15_sm_independent : forall root,
+  w_out (emit_tree true root) = w_out (emit_tree false root) /\ w_err (emit_tree true root) = w_err (emit_tree false root).
+Proof. exact emit_tree_sm_independent. Qed.
+Print Assumptions C15_sm_independent.
+
+Theorem C15_generate_is_compose : forall root, generate root = (fst (fst (compose root)), snd (compose root)).
+Proof. exact generate_is_compose. Qed.
+Print Assumptions C15_generate_is_compose.
+
+(** whatever `goht generate` writes for some bytes is the text the language server works with for those bytes *)
+Theorem C15_cli_lsp_same_code : forall input out,
+  cli_generate input = Some out -> exists adds, lsp_compose input = Some (out, adds, None).
+Proof.
+  intros input out H. unfold cli_generate, lsp_compose in *.
+  destruct (compile_parse input) as [t e| | |]; try discriminate. destruct e; [discriminate|].
+  rewrite (generate_is_compose t) in H. destruct (compose t) as [[o a] e]. cbn [fst snd] in H.
+  destruct e; [discriminate|]. injection H as ->. exists a. reflexivity.
+Qed.
+Print Assumptions C15_cli_lsp_same_code.
+
+(** the general fact behind both: any node, emitted from two writer states that agree on the variable counter,
+    the error and the local flags, writes the same chunks, wherever in the file the two writers are, whatever
+    they wrote before, and whether or not they record positions *)
+Theorem C15_step_independent_of_position : forall b b' sm sm' n next nc s s',
+  Rn b b' true s s' -> R2 b b' (emit_node sm n next nc s) (emit_node sm' n next nc s').
+Proof. intros b b' sm sm' n. exact (emit_node_sim b b' sm sm' n). Qed.
+Print Assumptions C15_step_independent_of_position.
+
+(** the file is its header followed by the items' own code: editing one item leaves the code of the others alone *)
+Theorem C15_file_is_concatenation : forall pkg user items,
+  Forall item items -> Forall (fun n => item_err n = None) items ->
+  generate (Node (KRoot pkg user) items) = (header_text pkg user ++ List.concat (map item_text items), None).
+Proof. exact file_is_concatenation. Qed.
+Print Assumptions C15_file_is_concatenation.
+
+Theorem C15_sibling_independent : forall pkg user pre post pkg' user' pre' post' t,
+  Forall item (pre ++ t :: post) -> Forall (fun n => item_err n = None) (pre ++ t :: post) ->
+  Forall item (pre' ++ t :: post') -> Forall (fun n => item_err n = None) (pre' ++ t :: post') ->
+  fst (generate (Node (KRoot pkg user) (pre ++ t :: post))) =
+    (header_text pkg user ++ List.concat (map item_text pre)) ++ item_text t ++ List.concat (map item_text post) /\
+  fst (generate (Node (KRoot pkg' user') (pre' ++ t :: post'))) =
+    (header_text pkg' user' ++ List.concat (map item_text pre')) ++ item_text t ++ List.concat (map item_text post').
+Proof. exact sibling_independent. Qed.
+Print Assumptions C15_sibling_independent.
+
+(** the hypotheses are met by what the parser produces for a file with Go code and two templates *)
+Definition itemb (n : node) : bool := match n with Node (KCode _) _ | Node (KGoht _) _ => true | _ => false end.
+Definition item_okb (n : node) : bool := match item_err n with None => true | Some _ => false end.
 
 Example C15_nonvacuous :
-  let src := lit "@goht T(a string) {" ++ [10; 9] ++ lit "%p.c{x: #{a}} t #{a}" ++ [10] ++ lit "}" ++ [10] in
+  let src := lit "package p" ++ [10] ++ lit "var x = 1" ++ [10] ++
+             lit "@goht T(a string) {" ++ [10; 9] ++ lit "%p.c{x: #{a}} t #{a}" ++ [10] ++ lit "}" ++ [10] ++
+             lit "@goht U() {" ++ [10; 9] ++ lit "- if x > 0" ++ [10; 9; 9] ++ lit "= @render T(""q"")" ++ [10] ++ lit "}" ++ [10] in
   match compile_parse src with
-  | ODone t None => beqb (fst (generate t)) (fst (fst (compose t)))
+  | ODone (Node (KRoot _ _) items) None =>
+      forallb itemb items && forallb item_okb items && Nat.leb 3 (List.length items)
+      && beqb (fst (generate (Node (KRoot tok_root []) items))) (fst (fst (compose (Node (KRoot tok_root []) items))))
   | _ => false
   end = true.
 Proof. vm_compute. reflexivity. Qed.
